@@ -520,7 +520,7 @@ func runC15(c *Ctx) {
 				bad = "addRule is not called in the scan loop"
 				continue
 			}
-			rc := s.RC[site.Block()]
+			rc := s.RCAt(site)
 			var ist Ref = False
 			for _, at := range u.AtomsOf(rc) {
 				if at.Op == "istype" && at.Aux == "*rules.CosmeticRule" {
